@@ -102,10 +102,10 @@ def ansTexts (r : Except PyErr (List T)) : String :=
   | .ok l => "ok:" ++ toString l.length ++ "#" ++ "|".intercalate (l.map encTR)
   | .error e => encErr e
 
-/-- seven flags: the six of the Text model, then `justifyNeg` -/
+/-- eight flags: the six of the Text model, then `justifyNeg`, then `rstripChars` -/
 def decWVariant? (s : String) : Option WVariant :=
   match s.toList with
-  | [a, b, c, d, e, f, g] => some ⟨⟨a == '1', b == '1', c == '1', d == '1', e == '1', f == '1'⟩, g == '1'⟩
+  | [a, b, c, d, e, f, g, h] => some ⟨⟨a == '1', b == '1', c == '1', d == '1', e == '1', f == '1'⟩, g == '1', h == '1'⟩
   | _ => none
 
 def orUnmodelled (o : Option String) : String := o.getD "unmodelled"
